@@ -11,10 +11,23 @@ var commonAssumptions = []string{
 	"bounded search: grammars <= ~60 nodes, inputs <= 48 bytes; it never establishes absence",
 }
 
+// withLR mixes left-recursive grammars (every nth) into a profile-driven check.
+func withLR(profiles []string, every int, stateful bool) func(r *Run, i int, seed int) *gspec.Grammar {
+	return func(r *Run, i int, seed int) *gspec.Grammar {
+		if i%every == every-1 {
+			return gspec.LRGrammarGen(stateful).Example(seed)
+		}
+		return gspec.GrammarGen(gspec.Profile(profiles[i%len(profiles)])).Example(seed)
+	}
+}
+
 // plainAndOptimized generates every grammar without and with -optimize-parser, cycling
 // the other flags.
 func plainAndOptimized(i int, g *gspec.Grammar) []batch.Variant {
 	extra := [][]string{nil, {"-optimize-basic-latin"}, {"-nolint"}, {"-support-left-recursion"}}[i%4]
+	if g.Profile == "leftrec" {
+		extra = [][]string{{"-support-left-recursion"}, {"-support-left-recursion", "-optimize-basic-latin"}}[i%2]
+	}
 	return []batch.Variant{
 		{Name: "standard", Flags: append([]string{}, extra...)},
 		{Name: "optimized", Flags: append([]string{"-optimize-parser"}, extra...)},
@@ -37,7 +50,7 @@ func init() {
 	})
 	register("C05", func(r *Run) error {
 		return runB(r, &BSpec{
-			ID: "C05", Profiles: []string{"stateful"},
+			ID: "C05", Profiles: []string{"stateful"}, Gen: withLR([]string{"stateful"}, 4, true),
 			Grammars: [2]int{96, 1600}, Cases: [2]int{500, 1000}, Variants: plainAndOptimized,
 			Rule:        "grammars from profile stateful (#{} blocks with scripted ops on shallow ints and an in-place mutated Cloner list, at arbitrary positions: rejected alternatives, failing sequences, & !, repetitions), with and without -optimize-parser; rapid draws (entry, input, InitState seeds, globalStore seed, whether actions/predicates attempt state writes); compared: the c.state and globalStore snapshot seen by every code block against the reference's transactional store, plus the parse value. Non-trivial = >=1 rollback of a non-empty state delta and >=2 events.",
 			Assumptions: commonAssumptions,
@@ -45,7 +58,7 @@ func init() {
 	})
 	register("C11", func(r *Run) error {
 		return runB(r, &BSpec{
-			ID: "C11", Profiles: []string{"faults", "faults", "stateful"},
+			ID: "C11", Profiles: []string{"faults", "faults", "stateful"}, Gen: withLR([]string{"faults", "faults", "stateful"}, 4, false),
 			Grammars: [2]int{96, 1600}, Cases: [2]int{500, 1000}, Variants: plainAndOptimized,
 			Rule:        "grammars from profile faults (display names on some rules) with fault plans drawn by rapid per case: up to 4 blocks returning errors (unique and repeated messages, n-th invocation or every invocation) or panicking with an error/string, Recover(true|false), file name empty or not; compared: dynamic type of the error (errList of *parserError), Inner identical to the injected value, every message [file:]line:col (off)[: rule NAME]: msg, exact list in order of first occurrence after de-duplication, value returned together with errors, panic -> nil value and last error (Recover) or the same value reaching the caller (Recover(false)). Non-trivial = >=1 fault fired.",
 			Assumptions: commonAssumptions,
@@ -79,13 +92,16 @@ func init() {
 
 func standardOnly(i int, g *gspec.Grammar) []batch.Variant {
 	extra := [][]string{nil, {"-optimize-basic-latin"}, {"-nolint"}, {"-support-left-recursion"}}[i%4]
+	if g.Profile == "leftrec" {
+		extra = []string{"-support-left-recursion"}
+	}
 	return []batch.Variant{{Name: "standard", Flags: append([]string{}, extra...)}}
 }
 
 func init() {
 	register("C06", func(r *Run) error {
 		return runB(r, &BSpec{
-			ID: "C06", Profiles: []string{"memo", "memo", "codeblocks"},
+			ID: "C06", Profiles: []string{"memo", "memo", "codeblocks"}, Gen: withLR([]string{"memo", "memo", "codeblocks"}, 5, false),
 			Grammars: [2]int{96, 1600}, Cases: [2]int{400, 800}, Variants: standardOnly,
 			Rule:        "grammars from profiles memo/codeblocks (pure code blocks: actions return a function of text/pos/labels, predicates a function of id and labels, faults fire on every invocation; no state blocks, no throw/recover; shared sub-rules reached from several alternatives), non-optimized parsers; rapid draws (entry, input, plan, a non-default combination of Memoize/Debug/Statistics); metamorphic relation: same success, value and code-block errors as the default-option run (which is itself tied to the reference); with Memoize: Stats.ExprCnt <= grammar expressions x (len+1) and no action runs twice at one offset; Stats.ExprCnt of the plain run equals the reference's evaluation count. Non-trivial = Memoize run with >=1 memo hit (ExprCnt lower than the plain run) or another option on a case with code-block events.",
 			Assumptions: commonAssumptions,
@@ -105,9 +121,13 @@ func init() {
 	register("C10", func(r *Run) error {
 		return runB(r, &BSpec{
 			ID: "C10", Profiles: []string{"codeblocks", "stateful", "faults", "throwrecover", "stateful", "utf8"},
+			Gen:      withLR([]string{"codeblocks", "stateful", "faults", "throwrecover", "stateful", "utf8"}, 4, true),
 			Grammars: [2]int{96, 1600}, Cases: [2]int{500, 1000},
 			Variants: func(i int, g *gspec.Grammar) []batch.Variant {
 				x := [][]string{nil, {"-optimize-basic-latin"}, {"-nolint"}, {"-support-left-recursion"}, {"-optimize-basic-latin", "-nolint"}, {"-support-left-recursion", "-optimize-basic-latin"}}[i%6]
+				if g.Profile == "leftrec" {
+					x = [][]string{{"-support-left-recursion"}, {"-support-left-recursion", "-nolint"}}[i%2]
+				}
 				return []batch.Variant{{Name: "X", Flags: append([]string{}, x...)}, {Name: "X+optimize-parser", Flags: append([]string{"-optimize-parser"}, x...)}}
 			},
 			Rule:        "grammars from the union of the profiles codeblocks/stateful/faults/throwrecover/utf8, each generated as the pair (X, X + -optimize-parser) with X cycling over the other flags; rapid draws (entry, input incl. invalid UTF-8, fault plan with errors and panics, InitState seeds, state writes from actions); relation: identical value, identical err.Error() text (whole list), identical panic behaviour and identical code-block event traces including the state/globalStore snapshots under default runtime options. Non-trivial = >=1 code-block event or >=1 error.",
@@ -174,4 +194,23 @@ func joinComma(s []string) string {
 		out += x
 	}
 	return out
+}
+
+func lrVariants(i int, g *gspec.Grammar) []batch.Variant {
+	extra := [][]string{nil, {"-optimize-basic-latin"}, {"-nolint"}}[i%3]
+	return []batch.Variant{
+		{Name: "standard", Flags: append([]string{"-support-left-recursion"}, extra...)},
+		{Name: "optimized", Flags: append([]string{"-support-left-recursion", "-optimize-parser"}, extra...)},
+	}
+}
+
+func init() {
+	register("C08", func(r *Run) error {
+		return runB(r, &BSpec{
+			ID: "C08", Grammars: [2]int{96, 1600}, Cases: [2]int{500, 1000}, Variants: lrVariants,
+			Gen: func(r *Run, i int, seed int) *gspec.Grammar { return gspec.LRGrammarGen(i%3 == 2).Example(seed) },
+			Rule: "grammars built from 1-3 nested directly left-recursive rules Li <- Li t1 / .. / Li tn / b1 / .. / bm (tails non-nullable; operands: next level, helper rules with arbitrary non-LR expressions, parenthesised top level; labels, actions, code predicates, state blocks in a third of the grammars), 30% of the levels through one other rule (Li <- Vi t / b ; Vi <- Li u), generated with -support-left-recursion with and without -optimize-parser; rapid draws (entry, input from sampling the denotation + edits, plan with error-returning blocks, InitState); the reference evaluates each LR rule by its denotation (ordered choice of the bases, greedy loop over the ordered choice of the tails, recursive reference = result so far); compared: termination, success, consumed prefix, left-nested value for plain, Memoize and optimized parsers; when the denotation invokes every LR rule at most once per offset also the error list and the state seen by every code block (nothing of the final non-extending attempt retained). Non-trivial = >=2 growth iterations.",
+			Assumptions: commonAssumptions,
+		})
+	})
 }
